@@ -401,6 +401,19 @@ func c11Judge(r *verifkit.Run, cs c11Case, ex c11Exchange) kmsg.Response {
 	r.Count("replies", 1)
 	if cs.Acks0 {
 		r.Count("acks0_got_reply", 1)
+		if cs.Advertised && !cs.NoReplyOK {
+			// A produce with acks=0 has no reply by protocol: a client does not read a frame for it. The frame that came
+			// back before the reply to the pipelined ApiVersions v0 request is therefore what the client receives as the
+			// reply to that next request - a reply with a foreign correlation id and body - and every later reply on the
+			// connection is shifted by one. (Not judged in the degraded proxy configurations, which answer and close.)
+			got := "none (frame shorter than 4 bytes)"
+			if len(ex.reply) >= 4 {
+				got = fmt.Sprint(int32(binary.BigEndian.Uint32(ex.reply)))
+			}
+			cs.Detail = fmt.Sprintf("a %d-byte frame (correlation id %s) arrived between the acks=0 produce and the reply to the ApiVersions v0 request sent right behind it", len(ex.reply), got)
+			c11Viol(r, "reply_frame_for_acks0_produce:"+api, fmt.Sprintf("%s: %s v%d with acks=0 (no reply by protocol) was answered with a %d-byte frame (correlation id %s); the next request on the connection receives it as its reply", cs.Target, api, cs.Version, len(ex.reply), got), cs)
+			return nil
+		}
 	}
 	if len(ex.reply) < 4 {
 		c11Viol(r, "reply_shorter_than_header:"+api, fmt.Sprintf("%s: %s v%d reply frame has %d bytes", cs.Target, api, cs.Version, len(ex.reply)), cs)
